@@ -477,7 +477,7 @@ pub fn components() -> Value {
         "real": [
             "src/main.rs main() (option handling, wiring)", "src/plugin.rs", "src/cln_plugin/* (codec, driver loop, logging layer and writer task, options)",
             "src/htlc_manager.rs", "src/messages.rs", "src/tlv.rs", "src/store.rs ClnDatastore", "src/payment_provider.rs PayPaymentProvider",
-            "src/block_watcher.rs", "tokio 1.38 current_thread runtime (paused clock, seeded)"
+            "src/block_watcher.rs", "tokio 1.38.0 current_thread runtime (paused clock, seeded); source from the cargo cache vendored under /verif/vendor/tokio with ONE added, cfg-guarded scheduling point (sync::Mutex::acquire may yield once on a seeded coin, vendor/tokio/src/verif_hook.rs) - used by the shadow crate only"
         ],
         "stub": [
             "src/rpc.rs Rpc: unix socket + call_typed replaced below the ClnRpc trait impl (same serde request/response mapping)",
